@@ -1,6 +1,8 @@
 package node
 
-// Deterministic witnesses of the candidate / listed findings of C02 and C08. Each witness
+// Deterministic witnesses of the open findings of C08 listed in known_findings.json (the
+// six findings of C02/C08 that were repaired in /repo have no witness any more; the
+// generated histories cover their classes without any guard). Each witness
 // runs one fixed scenario with the guard of its finding switched off and prints the
 // KNOWN-FINDING line while the scenario still violates the property. A witness never fails
 // the test (the finding is recorded, not re-alarmed).
@@ -13,20 +15,7 @@ import (
 	"github.com/AliyunContainerService/terway/zz_verif/vt"
 )
 
-type c02WitnessCtx struct {
-	msg string
-}
-
-type c02WitnessFail struct{}
-
-func (c *c02WitnessCtx) Fatalf(f string, a ...any) {
-	c.msg = fmt.Sprintf(f, a...)
-	panic(c02WitnessFail{})
-}
-func (c *c02WitnessCtx) Label(string) {}
-func (c *c02WitnessCtx) NonTrivial()  {}
-
-// c02Listed: the finding is listed as open (or pending listing, see c08Known).
+// c02Listed: the finding is listed as open.
 func c02Listed(id string) bool {
 	save := c02GuardOff
 	c02GuardOff = ""
@@ -60,45 +49,11 @@ func c02Witness(t *testing.T, property, id, what, scenario string) {
 	t.Logf("witness for %s no longer fails", id)
 }
 
-func TestVerifC02KnownV4NotOnV6ENI(t *testing.T) {
-	const id = "C02-v4-not-on-v6-eni"
-	if !c02Listed(id) {
-		t.Logf("finding %s is not listed as open; witness not run", id)
-		return
-	}
-	// dual stack; pod p0 exists, reports nothing, and is bound to an IPv6 address of eni-0
-	// only; eni-0 has no idle IPv4 address (its primary is held by p1), eni-1 has
-	s := c02FnScenario{V4: true, V6: true,
-		ENIs: []c02FnENI{{Status: "InUse", N4: 2, N6: 2, Del4: []int{1}}, {Status: "InUse", N4: 2, N6: 0}},
-		Pods: []c02FnPod{{Exists: true, ENI: 0, I4: 0, I6: 0, Rec: "full", Reports: "both"}, {Exists: true, ENI: 0, I4: 1, I6: 1, Rec: "v6only", Reports: "none"}},
-	}
-	c02GuardOff = id
-	defer func() { c02GuardOff = "" }()
-	c := &c02WitnessCtx{}
-	func() {
-		defer func() { _ = recover() }()
-		c02FnRunW(c, s)
-	}()
-	if c.msg != "" {
-		vt.KnownFindingLine("C02", "id="+id+" assignIPFromLocalPool picks the IPv4 address of a pod that already holds an IPv6 binding from any interface: the pod ends up with IPv4 and IPv6 on different interfaces")
-		t.Logf("witness still fails: %s", c.msg)
-		return
-	}
-	t.Logf("witness for %s no longer fails", id)
-}
-
 func TestVerifC08KnownDoubleFaultOrphan(t *testing.T) {
 	c02Witness(t, "C08", "C08-double-fault-orphan",
 		"interface created, attach fails, rollback delete fails and the status write fails: the unattached interface is neither deleted nor recorded, the following full sync lists attached interfaces only",
 		`{"mode":"C08","node":{"v4":true,"adapters":3,"v4_per":4,"v6_per":4,"min":0,"max":2,"vsw":[{"free":500}],"policy":"ordered"},"slots":[{},{},{}],
 		  "ops":[{"kind":"reconcile","b":1},{"kind":"episode","a":0,"b":1,"c":1,"api":"statuserr","faults":[{"kind":"attach","mode":"before","code":"Throttling"},{"kind":"delete","mode":"before","code":"Throttling"}]}]}`)
-}
-
-func TestVerifC08KnownIdleENIKept(t *testing.T) {
-	c02Witness(t, "C08", "C08-idle-eni-kept",
-		"a wholly idle secondary interface holding exactly as many addresses as the surplus (idle - max) is never released (releaseUnUsedIP: len < toDel): pool max 0, one pod created and gone, the interface with its idle primary address stays",
-		`{"mode":"C08","node":{"v4":true,"adapters":3,"v4_per":4,"v6_per":4,"min":0,"max":0,"vsw":[{"free":500}],"policy":"ordered"},"slots":[{},{},{}],
-		  "ops":[{"kind":"create","a":0},{"kind":"reconcile","b":2},{"kind":"delete","a":0},{"kind":"reportdeleted","a":0},{"kind":"reconcile","b":2}]}`)
 }
 
 func TestVerifC08KnownGreedyDemand(t *testing.T) {
@@ -134,21 +89,6 @@ func TestVerifC08KnownLostWrite(t *testing.T) {
 		  "ops":[{"kind":"apifault","b":2,"api":"conflict"},{"kind":"reconcile","b":3}]}`)
 }
 
-func TestVerifC08KnownRollbackRecordLacksMode(t *testing.T) {
-	c02Witness(t, "C08", "C08-rollback-record-lacks-mode",
-		"createENI records a created-but-unusable interface as Deleting with the traffic mode of the create answer, which is empty on ECS: getEniOptions does not count it against its kind and a second interface of that kind (here: trunk) is requested while the first still exists",
-		`{"mode":"C08","node":{"v4":true,"adapters":3,"v4_per":1,"v6_per":1,"trunk":true,"erdma":true,"min":0,"max":0,"vsw":[{"free":500}],"policy":"ordered","attach_polls":9,"synced":true},"slots":[{"host_net":true},{"host_net":true},{"host_net":true}],
-		  "ops":[{"kind":"reconcile","b":2}]}`)
-}
-
-func TestVerifC08KnownSyncMergeNilMap(t *testing.T) {
-	c02Witness(t, "C08", "C08-sync-merge-nil-map",
-		"mergeIPMap adds remote addresses to a local copy of a nil map: an interface recorded without IPv6 addresses never learns the IPv6 addresses the cloud holds (here after an AssignIpv6Addresses call that took effect but timed out), record and cloud disagree after every full sync and the controller keeps requesting beyond the limit",
-		`{"mode":"C08","node":{"v6":true,"adapters":2,"v4_per":1,"v6_per":1,"min":0,"max":0,"vsw":[{"free":500}],"policy":"ordered","synced":true},
-		  "pre":[{"type":"secondary","n4":1,"n6":0,"rec":"exact"}],"slots":[{},{},{}],
-		  "ops":[{"kind":"episode","a":0,"b":1,"c":2,"faults":[{"kind":"assign6","mode":"after","code":"Throttling"}]}]}`)
-}
-
 func TestVerifC08KnownSyncDropsDetachedENI(t *testing.T) {
 	c02Witness(t, "C08", "C08-sync-drops-detached-eni",
 		"an interface recorded as Deleting after a failed attach and a failed rollback delete is dropped from the record by the next full sync without being deleted (the by-id query is also filtered by instance id, a detached interface has none; non-secondary kinds are dropped unconditionally): it leaks",
@@ -161,20 +101,4 @@ func TestVerifC08KnownEFLOPartialKeyCollision(t *testing.T) {
 		"EFLO: an address that was created but did not become available is recorded under the empty address key; a second one finds that key taken and is forgotten, the controller then requests beyond the per-interface limit",
 		`{"mode":"C08","node":{"v4":true,"eflo":true,"adapters":2,"v4_per":3,"v6_per":3,"min":0,"max":0,"vsw":[{"free":500}],"policy":"ordered","synced":true},"slots":[{},{},{},{}],
 		  "ops":[{"kind":"create","a":0},{"kind":"episode","a":1,"b":3,"c":3,"faults":[{"kind":"assign4","mode":"partial","code":"1013"},{"kind":"assign4","mode":"partial","code":"1013"}]},{"kind":"burst","a":0,"b":2}]}`)
-}
-
-func TestVerifC08KnownNegativeSlotCount(t *testing.T) {
-	c02Witness(t, "C08", "C08-negative-slot-count",
-		"getEniOptions: when the node holds more interfaces of one kind than the flavor admits (here two trunk interfaces after C08-rollback-record-lacks-mode) the negative remainder is subtracted from the free-slot count, i.e. added to it, and yet another interface is requested beyond the flavor",
-		`{"mode":"C08","node":{"v4":true,"adapters":5,"v4_per":1,"v6_per":1,"trunk":true,"sec_cut":1,"min":0,"max":0,"vsw":[{"free":3}],"policy":"ordered","tag_filter":true,"attach_polls":9,"cloud_eni_cut":1,"synced":true},
-		  "slots":[{"host_net":true},{"host_net":true},{"host_net":true}],"ops":[{"kind":"reconcile","b":1},{"kind":"fullsync"}]}`)
-}
-
-func TestVerifC02KnownRollbackUnbindsExistingV4(t *testing.T) {
-	c02Witness(t, "C02", "C02-rollback-unbinds-existing-v4",
-		"dual stack: the branch 'no IPv6 address found, roll back IPv4' of assignIPFromLocalPool also clears an IPv4 binding that existed before the pass when the pod has not reported it yet; the address is handed to another pod in the same pass while the first pod still exists",
-		`{"mode":"C02","node":{"v4":true,"v6":true,"adapters":4,"v4_per":3,"v6_per":3,"trunk":true,"erdma":true,"min":1,"max":2,"vsw":[{"free":500},{"free":0,"other_zone":true},{"free":3}],"policy":"ordered"},
-		  "pre":[{"type":"trunk","n4":3,"n6":0,"rec":"exact","binds":[{"i4":18,"i6":11,"slot":3,"rec":"full","alive":false,"reports":"both"}]},
-		         {"type":"erdma","n4":4,"n6":2,"rec":"exact","del":[4,7],"binds":[{"i4":3,"i6":10,"slot":1,"rec":"full","alive":true,"reports":"both"}]}],
-		  "slots":[{},{},{"erdma":true},{}],"ops":[{"kind":"reconcile","b":2},{"kind":"burst","a":3,"b":3}]}`)
 }
